@@ -481,9 +481,12 @@ func runC(t *testing.T, sc Scenario) *core.Result {
 				label := fmt.Sprintf("step %d %s", i, st.Method)
 				var hdr, validHdr, what string
 				if st.Cred != "none" {
-					if ch == nil {
+					if ch == nil && !(st.Preempt && st.Scheme == mBasic) {
 						w.Fail("c10/harness script", "credentials before any challenge")
 						return
+					}
+					if st.Preempt {
+						w.Probe("preemptive_basic")
 					}
 					hdr, validHdr, what = authorization(st, wire)
 					if w.Failed() {
